@@ -96,7 +96,7 @@ def reference(d, options, removed, not_c, renaming, table, valid):
 
 def mutate(rnd, d):
     d = copy.deepcopy(d)
-    kind = rnd.choice(['none', 'dropcat', 'nopass', 'badpass', 'badopt-active', 'badopt-filtered', 'badpass-filtered', 'shuffle', 'maxt', 'excl', 'empty-include', 'empty-exclude', 'dup-row'])
+    kind = rnd.choice(['none', 'dropcat', 'nopass', 'badpass', 'badopt-active', 'badopt-filtered', 'badpass-filtered', 'shuffle', 'maxt', 'excl', 'empty-include', 'empty-exclude', 'dup-row', 'multi-include', 'multi-exclude', 'multi-both'])
     cats = [c for c in ('first', 'main', 'last') if d.get(c)]
     if kind == 'dropcat':
         d.pop(rnd.choice(['first', 'main', 'last']), None)
@@ -126,6 +126,15 @@ def mutate(rnd, d):
             e['include'] = []          # present but empty: can never intersect the active options
         elif kind == 'empty-exclude':
             e['exclude'] = []
+        elif kind == 'multi-include':
+            e['include'] = rnd.choice([['slow', 'windows'], ['windows', 'slow'], ['slow', 'slow']])   # any ONE active option suffices
+            e.pop('exclude', None)
+        elif kind == 'multi-exclude':
+            e['exclude'] = rnd.choice([['slow', 'windows'], ['windows', 'slow']])                      # any ONE active option excludes
+            e.pop('include', None)
+        elif kind == 'multi-both':
+            e['include'] = ['slow', 'windows']
+            e['exclude'] = [rnd.choice(['slow', 'windows'])]
         elif kind == 'dup-row':
             d[c].append(copy.deepcopy(e))   # the same pass twice: --remove-pass must drop both
     return kind, d
